@@ -213,7 +213,7 @@ func runC04(c *Ctx) {
 	c.Extra("registered_safe_types", redact.VerifSafeTypeCount())
 }
 
-// thresholdCalls: numbers in the format at and beyond the parser's limit (fmt accepts a literal number as long as the
+// thresholdCalls: corners of the format parser, and numbers in the format at and beyond the parser's limit (fmt accepts a literal number as long as the
 // value accumulated *before* its last digit is at most 1e6, and a '*' operand up to 1e6 in magnitude).
 func thresholdCalls() []*Call {
 	var out []*Call
@@ -227,6 +227,17 @@ func thresholdCalls() []*Call {
 			args = []*D{dS("string", "x"+startM), dN("int", 8)}
 		}
 		out = append(out, &Call{Raw: QS(f), Args: args})
+	}
+	// corners of the format parser that structured generators do not spell: two argument indexes back to back, digits
+	// followed by other characters inside an index, a lone continuation or invalid byte as the verb, a '%' at the end
+	// after flags/width, an index after a precision dot, star forms combined with indexes
+	for _, f := range []string{"%[3][1]d|", "%.[7][1]d|", "%5.[7][1]d|", "%[1][2]d|", "%[2][1]d|%d|", "%[1x]d|", "%[2 ]s|%s|", "%[x1]d|", "%[1 ]d|", "%[ 1]d|", "%[1]]d|", "%[[1]d|",
+		"%\x80|", "%\x81|", "%\xbf|", "%\xc0|", "%\xff|", "%\xe2\x80|", "%+\x80|%d", "%5\x80|", "%[1]\x80|", "%.3\x80|", "%\u0080|", "%\x7f|",
+		"%[1]*[2]*[3]d|", "%[3]*.[2]*[1]d|", "%[1]*.[1]*[1]d|", "%.*[1]d|", "%*[2]d|", "%[2]*[1]d|", "%[1]*d|%d", "%-[1]d|", "%[1]-d|", "%+[2]d|%[1]d|", "%#[1]x %#[2]x|",
+		"%", "%+", "%5", "%5.", "%5.3", "%[1]", "%[", "%[1", "%.", "%.*", "%*", "x%", "%%%", "%!", "%!d|", "%.0d|%.d|%.-1d|", "%--5d|", "%++d|", "%  d|", "%00005d|", "%+-05d|", "%#+- 0d|"} {
+		out = append(out, &Call{Raw: QS(f), Args: []*D{dN("int", 7), dN("int", 3), dN("int", 9)}},
+			&Call{Raw: QS(f), Args: []*D{dS("string", "a"), dS("string", "b")}},
+			&Call{Raw: QS(f), Args: nil})
 	}
 	for _, wt := range []string{"1e6", "1e6+1", "-1e6-1"} {
 		out = append(out, &Call{Dirs: []Dir{{Lit: "w", Width: "*", WT: wt, Verb: "d"}, {Lit: "|", Verb: "v"}}, Tail: ".", Args: []*D{dN("int", 7), dS("string", "t")}},
